@@ -94,6 +94,17 @@ let () =
         let head = List.hd parts and body = List.tl parts in
         let toks = List.filter (fun s -> s <> "") (split_on head " ") in
         let kind_s = List.hd toks in
+        if kind_s = "hashdet" then begin
+          (* determinism probes of the library's hash functions: every result must be ok *)
+          bump "cases_hashdet" 1;
+          let opno = ref 0 in
+          List.iter (fun opres ->
+            incr opno; incr nops;
+            match split_on opres "->" with
+            | [a; b] when trim b <> "ok" ->
+              Printf.printf "MISMATCH line=%d op=%d kind=api what=hash function %s is not a function of its argument: %s\n" !lineno !opno (trim a) (trim b)
+            | _ -> ()) body
+        end else
         if kind_s = "client" then begin
           (* a library-internal user of the quadratic table (grammar.Productions): no model; every operation
              must return, and Get must answer like a map from heads to body sets *)
@@ -154,6 +165,47 @@ let () =
               | _ -> ()) (split_on (after_eq tok) ",")) (List.tl toks);
         let hash k = try Hashtbl.find htab k with Not_found -> N0 in
         let eqb (a : int) (b : int) = a = b in
+        let big = List.mem "big=1" toks in
+        if big then begin
+          (* big tables: property-level comparison against the extracted abstract map (Spec.v: s_get, s_put,
+             s_rem, s_equal) only; no layout comparison *)
+          bump "cases_big" 1; bump ("cases_" ^ kind_s) 1; bump ("cases_hf_" ^ !hf) 1;
+          let sp = [| ([] : (int * int) list); [] |] in
+          let opno = ref 0 and dead = ref false and evs = ref 0 in
+          let opsig = Buffer.create 256 in
+          List.iter (fun opres ->
+            if not !dead then begin
+            incr opno; incr nops;
+            let op, res = match split_on opres "->" with
+              | [a; b] -> (trim a, trim b) | [a] -> (trim a, "?") | _ -> (opres, "?") in
+            Buffer.add_string opsig op; Buffer.add_char opsig ';';
+            let f = Array.of_list (List.filter (fun s -> s <> "") (split_on op " ")) in
+            if op = "N" then begin
+              Printf.printf "MISMATCH line=%d op=%d kind=api what=%s construction: implementation %s, expected a table\n" !lineno !opno kind_s res;
+              dead := true
+            end else begin
+            let c = f.(0).[0] and x = Char.code f.(0).[1] - 48 in
+            let arg i = int_of_string f.(i) in
+            let expect = match c with
+              | 'P' -> sp.(x) <- s_put eqb sp.(x) (arg 1) (arg 2); "-"
+              | 'G' -> show_opt (s_get eqb sp.(x) (arg 1))
+              | 'D' -> let o = s_get eqb sp.(x) (arg 1) in
+                       if o <> None then incr evs; sp.(x) <- s_rem eqb sp.(x) (arg 1); show_opt o
+              | 'C' -> sp.(x) <- []; "-"
+              | 'S' -> string_of_int (List.length sp.(x))
+              | 'Z' -> if sp.(x) = [] then "t" else "f"
+              | 'A' -> sort_all (show_all sp.(x))
+              | 'E' -> if s_equal eqb (fun (a : int) b -> a = b) sp.(x) sp.(1 - x) then "t" else "f"
+              | _ -> "?" in
+            let res' = if c = 'A' && res <> "?" && res <> "HANG" && res <> "PANIC" then sort_all res else res in
+            if res <> "?" && expect <> "?" && res' <> expect then
+              Printf.printf "MISMATCH line=%d op=%d kind=api what=%s %s: implementation %s, abstract map %s\n" !lineno !opno kind_s op
+                (if String.length res > 200 then String.sub res 0 200 ^ "..." else res)
+                (if String.length expect > 200 then String.sub expect 0 200 ^ "..." else expect);
+            if res = "HANG" || res = "PANIC" then dead := true
+            end end) body;
+          if !evs >= 1 then Hashtbl.replace nontrivial (Hashtbl.hash (kind_s, !cap, !hf, 1, 1), Digest.string (Buffer.contents opsig)) ()
+        end else begin
         bump ("cases_" ^ kind_s) 1; bump ("cases_hf_" ^ !hf) 1;
         let mk () = create kd (nat_of_int !cap) in
         let tabs = [| mk (); mk () |] in
@@ -247,6 +299,7 @@ let () =
           incr samples;
           let l = if String.length line > 500 then String.sub line 0 500 ^ " ..." else line in
           Printf.printf "SAMPLE %s\n" l
+        end
         end
       end
     done
